@@ -36,6 +36,10 @@ type c05Codec struct {
 	mu                           sync.Mutex // the concurrent cases share one installed codec
 	marshalCalls, unmarshalCalls int
 	mTypes, uTypes               map[string]int
+	// reform: a codec whose output is observably different in form but equal in value: member
+	// order shuffled at every level, white space between tokens, floats respelled (exponent /
+	// trailing .0); its decoder keeps numbers as float64 (no UseNumber).
+	reform bool
 }
 
 func (c *c05Codec) counts() (m, u int) {
@@ -69,6 +73,13 @@ func (c *c05Codec) Marshal(v interface{}) ([]byte, error) {
 	c.marshalCalls++
 	c.mTypes[c05TypeName(v)]++
 	c.mu.Unlock()
+	if c.reform {
+		b, err := json.Marshal(v)
+		if err != nil {
+			return nil, err
+		}
+		return c05Reform(b)
+	}
 	var buf bytes.Buffer
 	enc := json.NewEncoder(&buf)
 	enc.SetEscapeHTML(false)
@@ -85,7 +96,9 @@ func (c *c05Codec) Unmarshal(data []byte, v interface{}) error {
 	c.uTypes[c05TypeName(v)]++
 	c.mu.Unlock()
 	dec := json.NewDecoder(bytes.NewReader(data))
-	dec.UseNumber()
+	if !c.reform {
+		dec.UseNumber()
+	}
 	if err := dec.Decode(v); err != nil {
 		return err
 	}
@@ -97,9 +110,76 @@ func (c *c05Codec) Unmarshal(data []byte, v interface{}) error {
 	return nil
 }
 
+// c05Reform re-renders JSON text through the harness' own writer: same value, other form.
+// The noise is a function of the text (no shared state, usable from many goroutines). String
+// spellings are left alone: timestamps must stay literal for Go's time.Time.UnmarshalJSON.
+func c05Reform(b []byte) ([]byte, error) {
+	dec := json.NewDecoder(bytes.NewReader(b))
+	dec.UseNumber()
+	var parse func() (jsonw.Value, error)
+	parse = func() (jsonw.Value, error) {
+		tok, err := dec.Token()
+		if err != nil {
+			return nil, err
+		}
+		switch t := tok.(type) {
+		case json.Delim:
+			if t == '{' {
+				o := jsonw.Object{}
+				for dec.More() {
+					k, err := dec.Token()
+					if err != nil {
+						return nil, err
+					}
+					val, err := parse()
+					if err != nil {
+						return nil, err
+					}
+					o = append(o, jsonw.Field{Key: k.(string), Val: val})
+				}
+				_, err := dec.Token()
+				return o, err
+			}
+			a := jsonw.Array{}
+			for dec.More() {
+				val, err := parse()
+				if err != nil {
+					return nil, err
+				}
+				a = append(a, val)
+			}
+			_, err := dec.Token()
+			return a, err
+		case json.Number:
+			lit := string(t)
+			if strings.ContainsAny(lit, ".eE") {
+				if f, err := t.Float64(); err == nil {
+					lit = jsonw.NewFloat(f, 2+len(lit)%3).Text
+				}
+			}
+			return jsonw.Number(lit), nil
+		case string:
+			return jsonw.String(t), nil
+		case bool:
+			return jsonw.Bool(t), nil
+		}
+		return jsonw.Null{}, nil
+	}
+	v, err := parse()
+	if err != nil {
+		return nil, err
+	}
+	h := uint64(14695981039346656037)
+	for _, c := range b {
+		h = (h ^ uint64(c)) * 1099511628211
+	}
+	return jsonw.Write(v, &jsonw.Style{R: gen.New(h, "c05reform"), Shuffle: true, Space: 1}), nil
+}
+
 type c05Config struct {
-	name string
-	m, u bool
+	name   string
+	m, u   bool
+	reform bool // install the re-forming codec instead of the recording one
 	// shared != nil: the configuration is already in force for the whole case (concurrent
 	// cases install the codec once before their goroutines start); c05With then leaves the
 	// package variables alone and hands out this codec.
@@ -111,6 +191,7 @@ var (
 	c05Custom    = c05Config{name: "custom", m: true, u: true}
 	c05MarshOnly = c05Config{name: "custom-marshaler-only", m: true}
 	c05UnmOnly   = c05Config{name: "custom-unmarshaler-only", u: true}
+	c05Reformer  = c05Config{name: "custom-reforming", m: true, u: true, reform: true}
 )
 
 // c05With runs f with the codec variables set as cfg says and always restores them to nil.
@@ -126,6 +207,7 @@ func c05With(cfg c05Config, f func(codec *c05Codec)) (pan string) {
 		return ""
 	}
 	codec := newC05Codec()
+	codec.reform = cfg.reform
 	defer func() {
 		osm.CustomJSONMarshaler = nil
 		osm.CustomJSONUnmarshaler = nil
@@ -1116,6 +1198,17 @@ func (run *c05Run) boundary(o *osm.OSM, r *gen.R) {
 	}
 }
 
+// consulted counts, per direction, the container (un)marshals during which an installed codec
+// was / was not called. Observation only: the property promises equal results, not that the
+// codec is consulted (an empty container needs no codec at all).
+func (run *c05Run) consulted(dir string, calls int) {
+	if calls > 0 {
+		run.res.Add("codec_consulted_runs_"+dir, 1)
+	} else {
+		run.res.Add("codec_not_consulted_runs_"+dir, 1)
+	}
+}
+
 func (run *c05Run) recordCodec(cfg c05Config, codec *c05Codec) {
 	if cfg.shared != nil {
 		return // recorded once, when the goroutines are done
@@ -1156,8 +1249,8 @@ func (run *c05Run) unmarshalFlow(path, errClass string, text []byte, newTarget f
 			dumps[cfg.name] = "error"
 			continue
 		}
-		if cfg.u && assertConsulted && calls == 0 {
-			rp.violate("codec/not-consulted/unmarshal", "CustomJSONUnmarshaler installed but never called while unmarshalling the container")
+		if cfg.u && assertConsulted {
+			run.consulted("unmarshal", calls)
 		}
 		dumps[cfg.name] = c05Dump(target)
 		check(rp, target)
@@ -1200,8 +1293,8 @@ func (run *c05Run) marshalFlow(path, errClass string, v any, shape func(rp *c05R
 		if run.res.Sample == nil && cfg.name == "default" {
 			run.res.Sample = map[string]any{"flow": path, "marshalled": c05Trim(string(out), 700)}
 		}
-		if cfg.m && assertConsulted && calls == 0 {
-			rp.violate("codec/not-consulted/marshal", "CustomJSONMarshaler installed but never called while marshalling the container")
+		if cfg.m && assertConsulted {
+			run.consulted("marshal", calls)
 		}
 		doc, perr := c05Generic(out)
 		if perr != nil {
@@ -1226,8 +1319,8 @@ func (run *c05Run) marshalFlow(path, errClass string, v any, shape func(rp *c05R
 			rp.violate(path+"/unmarshal-error/"+errClass, "the library cannot read its own output: "+uerr.Error())
 			dumps[cfg.name] = "error"
 		default:
-			if cfg.u && assertConsulted && ucalls == 0 {
-				rp.violate("codec/not-consulted/unmarshal", "CustomJSONUnmarshaler installed but never called while unmarshalling the container")
+			if cfg.u && assertConsulted {
+				run.consulted("unmarshal", ucalls)
 			}
 			dumps[cfg.name] = c05Dump(target)
 			check(rp, target)
@@ -1417,7 +1510,7 @@ func (run *c05Run) checkChangeValue(v *osm.Change, blocks bool) {
 // ---------------------------------------------------------------------------------------
 // cases
 
-var c05AllConfigs = []c05Config{c05Default, c05Custom, c05MarshOnly, c05UnmOnly}
+var c05AllConfigs = []c05Config{c05Default, c05Custom, c05Reformer, c05MarshOnly, c05UnmOnly}
 
 func c05Style(r *gen.R) *jsonw.Style {
 	return &jsonw.Style{R: r, Shuffle: r.Chance(0.7), Space: r.Intn(3), Escape: r.Intn(3)}
@@ -1658,6 +1751,7 @@ func (run *c05Run) checkForms(x reflect.Value) {
 	input := "value (" + tn + "): " + c05Trim(eq.Dump(want), 3000)
 	for _, form := range c05Forms {
 		raised := map[string]bool{}
+		canonDefault := ""
 		for _, cfg := range run.configs {
 			vias := []string{"json.Marshal"}
 			if cfg.m {
@@ -1702,6 +1796,11 @@ func (run *c05Run) checkForms(x reflect.Value) {
 					continue
 				}
 				c05FormShape(rp, ctx, doc, want)
+				if cn := c05Canon(doc); cfg.name == "default" {
+					canonDefault = cn
+				} else if canonDefault != "" && cn != canonDefault {
+					rp.violate(path+"/codec-differs-marshal", tn+" marshalled as a different JSON value than under the default configuration: "+eq.Diff(canonDefault, cn))
+				}
 				if refDoc, e := c05Generic(ref); e == nil && c05Canon(refDoc) != c05Canon(doc) {
 					rp.violate(path+"/differs-from-pointer-form", tn+" marshalled as "+form.name+" is a different JSON value than marshalled through a pointer: "+eq.Diff(c05Canon(refDoc), c05Canon(doc)))
 				}
@@ -1893,9 +1992,10 @@ func c05Retained(res *fw.Result, run *c05Run, c fw.Case, r *gen.R) {
 // variables are set before the goroutines start and restored after they finished.
 func c05Concurrent(res *fw.Result, c fw.Case) {
 	res.Sample = map[string]any{"goroutines": c.Int("goroutines"), "documents_each": c.Int("docs"), "repetitions": c.Int("reps"), "variant": c.Variant}
-	for _, base := range []c05Config{c05Default, c05Custom} {
+	for _, base := range []c05Config{c05Default, c05Custom, c05Reformer} {
 		cfg := base
 		cfg.shared = newC05Codec()
+		cfg.shared.reform = cfg.reform
 		func() {
 			defer func() {
 				osm.CustomJSONMarshaler = nil
@@ -1977,7 +2077,7 @@ func c05Exec(c fw.Case) *fw.Result {
 		panic("harness: codec variables not restored by an earlier case")
 	}
 	r := gen.New(c.Seed, "c05")
-	run := &c05Run{res: res, configs: []c05Config{c05Default, c05Custom}}
+	run := &c05Run{res: res, configs: []c05Config{c05Default, c05Custom, c05Reformer}}
 	if c.Int("allconfigs") == 1 {
 		run.configs = c05AllConfigs
 	}
@@ -2181,7 +2281,11 @@ func c05Exec(c fw.Case) *fw.Result {
 					res.Add("unknown_type_accepted", 1)
 				}
 			}
-			if outcome["default"] != outcome["custom"] {
+			agree := true
+			for _, cfg := range run.configs[1:] {
+				agree = agree && outcome[cfg.name] == outcome["default"]
+			}
+			if !agree {
 				res.Violate("C05/indep/codec-differs-unknown-type", "configurations disagree on accepting an unknown element type", string(text))
 			}
 		}
@@ -2276,7 +2380,7 @@ func init() {
 			"element types this library does not know (Overpass count / area) are run for panics and configuration agreement only",
 			"a way without nodes may be written with nodes absent, null or []; tags are generated with unique keys (osmjson cannot carry duplicates)",
 			"json-iterator cannot run on this toolchain; the installed codec is encoding/json with SetEscapeHTML(false), indented output and UseNumber, so version numbers are limited to literals that print back identically from float64",
-			"consultation of the installed codec is asserted for the container entry points (osm.OSM, osm.Change with a block); which inner helpers call it is recorded (codec_*_types) but not asserted, because the statement only promises equal results",
+			"whether and how often the library calls an installed codec is recorded (codec_consulted_runs_*, codec_not_consulted_runs_*, codec_*_types) but never asserted: the statement promises equal results, not consultation (an empty container needs no codec); equality is asserted on the canonical JSON value of the output and on the decoded values, across the default configuration, the recording codec (indentation, no HTML escaping, UseNumber) and a re-forming codec (shuffled member order, white space, respelled floats, float64 decoding)",
 			"way/relation bounds are written either as this library spells them (MinLat) or as Overpass does (minlat); both must be read",
 			"a non-nil pointer to an all-zero optional part (bounds without extent, committed at the zero instant, discussion without comments, change without attributes and blocks, change block without attributes and objects) is identified with its absence, like nil and empty slices; what is asserted is that everything else survives next to it",
 		},
